@@ -161,4 +161,11 @@ OkWasAvailable == \A w \in Waiters : st.wres[w] = "ok" => st.av[w]
 CancelReleases == \A w \in Waiters : st.wcan[w] => st.wpc[w] # "waiting"
 \* the published height is covered by what is available
 HeightIsStored == st.height = 0 \/ (1..st.height) \subseteq st.stored
+
+-----------------------------------------------------------------------------
+(* liveness (checked without Init calls): under weak fairness of every goroutine's own steps — a parked goroutine is
+   eventually released — a waiter whose height is available eventually returns *)
+StepOf(p) == \E x \in Hs : st' \in Do(st, p, "step", x)
+LiveSpec == Spec /\ \A p \in Setters \cup Waiters : WF_st(StepOf(p))
+EventuallyReturns == \A w \in Waiters : (st.wpc[w] # "idle" /\ st.want[w] \in st.stored) ~> (st.wpc[w] = "done")
 =============================================================================
